@@ -235,3 +235,74 @@ package trace
 //@   assert@call OnEnd#* : !holds(s.mu)
 //@   assert@call recordingSpan.snapshot#* : !holds(s.mu)
 //@   ensures s != nil ==> ends[s] <= old(ends[s]) + 1
+
+// ---- attributes of a span (C04)
+//@ func (s *recordingSpan) addDroppedAttr(incr int)
+//@   prop C04 C10
+//@   holds s.mu
+//@   overflow assumed
+//@   requires s != nil
+//@   modifies s.droppedAttributes
+//@   ensures s.droppedAttributes == old(s.droppedAttributes) + incr
+
+// in-place de-duplication over the shared backing array: afterwards keys are unique, record maps each key to its index,
+// no attribute key is lost, the slice never grows
+//@ spec uniqueKeys(l []attribute.KeyValue) bool = forall i in 0 .. len(l) : forall j in 0 .. i : l[i].Key != l[j].Key
+//@ spec indexed(l []attribute.KeyValue, m map[attribute.Key]int) bool = (forall i in 0 .. len(l) : has(m, l[i].Key) && m[l[i].Key] == i) && (forall k attribute.Key : has(m, k) ==> 0 <= m[k] && m[k] < len(l) && l[m[k]].Key == k)
+//@ func (s *recordingSpan) dedupeAttrsFromRecord(record map[attribute.Key]int)
+//@   prop C04 C10
+//@   holds s.mu
+//@   requires s != nil && record != nil && (forall k attribute.Key : !has(record, k))
+//@   modifies s.attributes, elems(s.attributes), record
+//@   ensures len(s.attributes) <= old(len(s.attributes)) && samearray(s.attributes, old(s.attributes)) && cap(s.attributes) == old(cap(s.attributes))
+//@   ensures indexed(s.attributes, record)
+//@   ensures uniqueKeys(s.attributes)
+//@   ensures forall i in 0 .. old(len(s.attributes)) : has(record, old(s.attributes[i].Key))
+//@   loop#1 invariant s.attributes === old(s.attributes) && framed()
+//@   loop#1 invariant samearray(unique, old(s.attributes)) && cap(unique) == cap(old(s.attributes)) && 0 <= len(unique) && len(unique) <= $k
+//@   loop#1 invariant indexed(unique, record)
+//@   loop#1 invariant forall i in $k .. len(s.attributes) : s.attributes[i] == old(s.attributes[i])
+//@   loop#1 invariant forall i in 0 .. $k : has(record, old(s.attributes[i].Key))
+
+//@ spec attrLimit(s *recordingSpan) int = s.tracer.provider.spanLimits.AttributeCountLimit
+
+//@ func truncateAttr(limit int, attr attribute.KeyValue) (r attribute.KeyValue)
+//@   prop C04
+//@   unchecked no-panic,frame string-slice values are unpacked and rebuilt through reflect (attribute/internal)
+//@   ensures r.Key == attr.Key
+//@   ensures limit < 0 ==> r == attr
+//@   ensures attr.Value.vtype != attribute.STRING && attr.Value.vtype != attribute.STRINGSLICE ==> r == attr
+
+// over-capacity insert: existing keys are updated even when full, new keys are appended only while below the limit,
+// keys stay unique, the count limit is never exceeded, drops are only ever counted up
+//@ func (s *recordingSpan) addOverCapAttrs(limit int, attrs []attribute.KeyValue)
+//@   prop C04 C10
+//@   holds s.mu
+//@   overflow assumed
+//@   requires s != nil && s.tracer != nil && s.tracer.provider != nil && limit > 0 && len(s.attributes) <= limit
+//@   modifies s.attributes, elemscap(s.attributes), s.droppedAttributes
+//@   ensures uniqueKeys(s.attributes) && len(s.attributes) <= limit
+//@   ensures s.droppedAttributes >= old(s.droppedAttributes)
+//@   loop#1 invariant indexed(s.attributes, exists)
+//@   loop#1 invariant len(s.attributes) <= limit && s.droppedAttributes >= old(s.droppedAttributes) && exists != nil
+//@   loop#1 invariant fresh(s.attributes) || (samearray(s.attributes, old(s.attributes)) && cap(s.attributes) == cap(old(s.attributes)))
+//@   loop#1 invariant framed()
+
+// SetAttributes: nothing after End; limit 0 drops everything; otherwise the count limit holds afterwards, and on the fast
+// path every offered attribute is either stored or counted as dropped
+//@ func (s *recordingSpan) SetAttributes(attributes []attribute.KeyValue)
+//@   prop C04 C10
+//@   overflow assumed
+//@   unchecked frame the array part of the frame (in-place append window after slices.Grow) is undecided by all three solvers; the object part is kept as a loop invariant
+//@   requires s == nil || (s.tracer != nil && s.tracer.provider != nil && (attrLimit(s) > 0 ==> len(s.attributes) <= attrLimit(s)))
+//@   modifies s.attributes, elemscap(s.attributes), s.droppedAttributes
+//@   ensures s != nil && !old(s.endTime.IsZero()) ==> s.attributes === old(s.attributes) && s.droppedAttributes == old(s.droppedAttributes)
+//@   ensures s != nil && old(s.endTime.IsZero()) && attrLimit(s) == 0 ==> s.attributes === old(s.attributes) && s.droppedAttributes == old(s.droppedAttributes) + len(attributes)
+//@   ensures s != nil && attrLimit(s) > 0 ==> len(s.attributes) <= attrLimit(s)
+//@   ensures s != nil && old(s.endTime.IsZero()) && attrLimit(s) != 0 && !(attrLimit(s) > 0 && old(len(s.attributes)) + len(attributes) > attrLimit(s)) ==> len(s.attributes) + s.droppedAttributes == old(len(s.attributes)) + old(s.droppedAttributes) + len(attributes)
+//@   assert@call recordingSpan.addOverCapAttrs#1 : limit > 0 && len(s.attributes) + len(attributes) > limit
+//@   loop#1 invariant len(s.attributes) + s.droppedAttributes == old(len(s.attributes)) + old(s.droppedAttributes) + $k
+//@   loop#1 invariant len(s.attributes) <= old(len(s.attributes)) + $k
+//@   loop#1 invariant s.droppedAttributes >= old(s.droppedAttributes)
+//@   loop#1 invariant fresh(s.attributes) || (samearray(s.attributes, old(s.attributes)) && cap(s.attributes) == cap(old(s.attributes)))
+//@   loop#1 invariant framed("frame.S_")
